@@ -321,7 +321,11 @@ def profile_errors(rnd, tier):
         elif r < 0.8:
             steps.append((c, ('check',), []))
         elif r < 0.9:
-            steps.append((c, ('close',), [[(c, F('NChCloseOk'))]] if rnd.random() < 0.8 else []))
+            if c not in closed and rnd.random() < 0.4:
+                # an error is still pending when the channel is closed
+                steps.append((c, ('idle',), [g.returned(c, rnd.choice([312, 313]))]))
+            steps.append((c, ('close', 'with') if rnd.random() < 0.5 else ('close',),
+                          [[(c, F('NChCloseOk'))]] if rnd.random() < 0.8 else []))
             closed.add(c)      # the broker says nothing more on a channel the application closed
         else:
             steps.append((c, ('consume', b'k'), [[(c, F('NConsumeOk', 0, b'k'))]]))
@@ -398,7 +402,7 @@ def profile_faults(rnd, tier):
     for _ in range(rnd.randrange(1, 4)):
         c = rnd.randrange(1, nchan + 1)
         steps.append((c, rnd.choice([('ack',), ('check',), ('rpc', 0), ('publish', False),
-                                     ('close',), ('stop',), ('build',)]), []))
+                                     ('close',), ('close', 'with'), ('stop',), ('build',)]), []))
     if kind != 'send' and rnd.random() < 0.2:
         # the transport dies while a consumer is putting a body together: Deliver and a
         # header announcing n > 0 bytes have arrived, the body has not (or only part of it)
